@@ -203,13 +203,14 @@ fn fragments(c: Class) -> Vec<Frag> {
     }
 }
 
-pub const EMBEDDINGS: [&str; 9] = [
+pub const EMBEDDINGS: [&str; 10] = [
     "main",
     "after",
     "import",
     "import-as",
     "crlf",
     "eof",
+    "imports-clean",
     "before",
     "import-own",
     "diamond",
@@ -272,6 +273,14 @@ fn embed(class: Class, fi: usize, frag: Frag, e: usize) -> Program {
         ),
         // the declarations (which hold the error) last, and nothing after the last token
         "eof" => (vec![m("main.oal", format!("{plain}\n{decls}").trim_end_matches([' ', '\n', '\r', '\t']).to_owned())], "main.oal"),
+        // the error sits in main, which also imports a module that is fine (and is read later)
+        "imports-clean" => (
+            vec![
+                m("main.oal", format!("use \"lib.oal\" as lib;\n{decls}\n{plain}\nres /lib on get -> <lib.fine>;\n")),
+                m("lib.oal", "let fine = num;\n".to_owned()),
+            ],
+            "main.oal",
+        ),
         "import" => (
             vec![
                 m("main.oal", format!("use \"m.oal\";\n{plain}\n")),
@@ -1316,8 +1325,8 @@ impl Engine for C13 {
     }
     fn phases(&self, tier: Tier) -> Vec<Phase> {
         let (nfrag, nembed, reduced) = match tier {
-            Tier::Quick => (4, 6, true),
-            Tier::Thorough => (99, 9, false),
+            Tier::Quick => (4, 7, true),
+            Tier::Thorough => (99, 10, false),
         };
         let par = |kind: &str| json!({"kind": kind, "fragments": nfrag, "embeddings": nembed, "reduced": reduced});
         vec![
@@ -1414,7 +1423,7 @@ impl Engine for C13 {
         }
     }
     fn rule(&self) -> String {
-        "programs: for success and each failure class {lexical, syntax, unbound, duplicate, kind-mismatch, infinite-type, bad-recursion, status-literal, annotation-yaml} hand-written fragments (declarations holding the error + the statements of main that use them; quick: the first 4 per class, thorough: all 4-9) in every embedding (quick: main, after valid code with multi-byte text, imported module, qualified import, CRLF, the error at the very end of a text without final newline; thorough also: before valid code, module with its own import, bottom of a diamond), plus 9 missing-import and 8 import-cycle programs on 1-3 modules; lexical and syntax fragments include ones whose residual tree is complete. Phase 1 places every program in its class with the libraries (module::load + compile + eval over an in-memory loader). Phase 2 runs the real oal-cli on program x {options only (cwd = sources, where an oal.toml naming another main, target and base lies unused), --conf only (cwd elsewhere), conf naming a wrong main and target overridden by options, non-existent main, -c oal.toml as a bare file name from its own directory} x base {none, valid, not YAML, YAML but not an OpenAPI object, missing file} x target {absent, sentinel bytes} (and once per accepted program the target /dev/full, which must make the run fail): exit status must be 0 exactly for an accepted program with a valid configuration and 1 otherwise (never a signal or another code); on 0 the target parses as openapiv3::OpenAPI and equals, as YAML values, the document of the in-process libraries on the same module URLs (Builder::with_base for the valid base); on 1 the target is byte-identical to what it was (or still absent), stderr is not empty and, for an error in the sources, carries `<url of the module the error is in>:<line>:<column>` with the line and column of the span the libraries attach to the error (for an import cycle: the url of any module of the program); for single-module sources without base oal_wasm::compile succeeds iff the CLI does and gives the same document up to hash-* names (they digest the module URL). Phase 4 starts one oal-lsp on two workspace folders holding every ordered pair of one single-module program per class: each folder gets >= 1 diagnostic iff its program is rejected. Phase 3 starts the real oal-lsp on the sources as a workspace folder with oal.toml, initialises, sends one request and counts the diagnostics a client sees (last publication per URI): >= 1 iff the CLI (options only, no base) fails; the same after main.oal is opened with its own text and a second request (a second evaluation of unchanged sources); and for an accepted program with imports >= 1 after the first imported module was removed from disk and main.oal re-sent. distinct = distinct (class, configuration, exit, first stderr line, document) observations. states = (program, configuration) pairs, transitions = process runs".into()
+        "programs: for success and each failure class {lexical, syntax, unbound, duplicate, kind-mismatch, infinite-type, bad-recursion, status-literal, annotation-yaml} hand-written fragments (declarations holding the error + the statements of main that use them; quick: the first 4 per class, thorough: all 4-9) in every embedding (quick: main, after valid code with multi-byte text, imported module, qualified import, CRLF, the error at the very end of a text without final newline, main holding the error and importing a module that is fine; thorough also: before valid code, module with its own import, bottom of a diamond), plus 9 missing-import and 8 import-cycle programs on 1-3 modules; lexical and syntax fragments include ones whose residual tree is complete. Phase 1 places every program in its class with the libraries (module::load + compile + eval over an in-memory loader). Phase 2 runs the real oal-cli on program x {options only (cwd = sources, where an oal.toml naming another main, target and base lies unused), --conf only (cwd elsewhere), conf naming a wrong main and target overridden by options, non-existent main, -c oal.toml as a bare file name from its own directory} x base {none, valid, not YAML, YAML but not an OpenAPI object, missing file} x target {absent, sentinel bytes} (and once per accepted program the target /dev/full, which must make the run fail): exit status must be 0 exactly for an accepted program with a valid configuration and 1 otherwise (never a signal or another code); on 0 the target parses as openapiv3::OpenAPI and equals, as YAML values, the document of the in-process libraries on the same module URLs (Builder::with_base for the valid base); on 1 the target is byte-identical to what it was (or still absent), stderr is not empty and, for an error in the sources, carries `<url of the module the error is in>:<line>:<column>` with the line and column of the span the libraries attach to the error (for an import cycle: the url of any module of the program); for single-module sources without base oal_wasm::compile succeeds iff the CLI does and gives the same document up to hash-* names (they digest the module URL). Phase 4 starts one oal-lsp on two workspace folders holding every ordered pair of one single-module program per class: each folder gets >= 1 diagnostic iff its program is rejected. Phase 3 starts the real oal-lsp on the sources as a workspace folder with oal.toml, initialises, sends one request and counts the diagnostics a client sees (last publication per URI): >= 1 iff the CLI (options only, no base) fails; the same after main.oal is opened with its own text and a second request (a second evaluation of unchanged sources); and for an accepted program with imports >= 1 after the first imported module was removed from disk and main.oal re-sent. distinct = distinct (class, configuration, exit, first stderr line, document) observations. states = (program, configuration) pairs, transitions = process runs".into()
     }
     fn assumptions(&self) -> Vec<String> {
         vec![
